@@ -32,7 +32,8 @@ def _snapshot_views(proc):
             'raw_inputs': _jsonable(proc.raw_inputs) if proc.raw_inputs is not None else None}
 
 
-def run_with_crashes(make_proc, crash_points, resume_for_wait, transport=None, budget=4000, max_restores=64, persister=None, lag=0, resume_mode='plain'):
+def run_with_crashes(make_proc, crash_points, resume_for_wait, transport=None, budget=4000, max_restores=64, persister=None, lag=0, resume_mode='plain',
+                     exit_crashes=()):
     """make_proc(loop) -> process.  resume_for_wait(j) -> list of resume args for the j-th wait (0-based).
 
     transport(bundle) -> bundle: how the snapshot travels (default: pickle round trip).
@@ -41,6 +42,8 @@ def run_with_crashes(make_proc, crash_points, resume_for_wait, transport=None, b
     (the real API instead of a Bundle made by the harness); the instance that wrote the checkpoint then runs on for
     ``lag`` more boundaries before it is abandoned -- that work is lost and has to be done again by the restored run."""
     crash_points = set(crash_points)
+    exit_crashes = set(exit_crashes)  # indices of "a RUNNING state is being left" events (the step has returned, the next state is
+    exits = [0]                       # not entered yet) at which a checkpoint is taken and the instance abandoned
     lagging = [None]  # [index of the checkpoint boundary, boundaries still to run before the crash]
     boundary = [0]  # global boundary counter across restores
     snapshot = [None]
@@ -68,6 +71,20 @@ def run_with_crashes(make_proc, crash_points, resume_for_wait, transport=None, b
                         mismatches.append([restores, keys, {k: now[k] for k in keys}, {k: at_checkpoint[0][k] for k in keys}])
             finally:
                 programs.CURRENT_REC = None
+
+            def exiting(p, _hook, _next_state):
+                if p.state == ps.ProcessState.RUNNING and not crash[0]:
+                    idx = exits[0]
+                    exits[0] += 1
+                    if idx in exit_crashes:
+                        at_checkpoint[0] = _snapshot_views(p)
+                        snapshot[0] = plumpy.Bundle(p, dereference=isinstance(p, plumpy.ContextMixin))
+                        crash[0] = True
+                        log.append(['checkpoint-on-exit', idx, len(p.trace)])
+
+            if exit_crashes:
+                from plumpy.base.state_machine import StateEventHook
+                proc.add_state_event_callback(StateEventHook.EXITING_STATE, exiting)
 
             def entered(p, frm, to, proc_ref=[None]):
                 if to in ('running', 'waiting') and not crash[0]:
